@@ -32,7 +32,7 @@ RULE = ('H-DOC: 16 message tags x {empty element, text-only, with children} x en
         'operation in {5 valid, unknown, lower-case, missing} x element_target in {absent, empty, storyID, blank storyID, '
         'storyID+itemID, storyID+blank itemID} x element_source in {absent, empty, storyIDs, itemIDs, story, item, story with '
         'nested itemID}; non-MOS roots, a message tag as root, nested too deep, wrong case; every proper prefix of each '
-        'canonical document; (thorough) every single-character deletion. Each document x warning filter {process default, '
+        'canonical document; each canonical document with non-ASCII text stored as bytes / file in ISO-8859-1, UTF-16, windows-1252, UTF-8 and UTF-8 with BOM; (thorough) every single-character deletion. Each document x warning filter {process default, '
         'always, error} x source {str, bytes, file}. Oracle: an independent reference classifier over the parsed document '
         '(tag table and (operation, target-has-itemID, source-has-itemID) table from the property); every other well-formed '
         'document -> UnknownMosFileType; not well-formed -> MosInvalidXML; identical verdict across filters and sources. '
@@ -328,6 +328,53 @@ def pair_worker(ns, items, res, opts):
                                            f'two message elements {label}: classified {v1}, reference allows {sorted(ok)}', document=t1)
 
 
+def encoded_docs():
+    """Canonical documents with non-ASCII text, stored as bytes in a declared encoding."""
+    for cls, text in canonical_docs().items():
+        t = text.replace('<mosID>m.os</mosID>', '<mosID>caf\u00e9 \u00a35</mosID>', 1)
+        for enc in ('ISO-8859-1', 'UTF-16', 'UTF-8', 'windows-1252'):
+            yield (cls, enc, (f'<?xml version="1.0" encoding="{enc}"?>' + t).encode(enc))
+        yield (cls, 'utf-8-bom', b'\xef\xbb\xbf' + t.encode('utf-8'))
+
+
+def bytes_worker(ns, items, res, opts):
+    prop = opts['prop']
+    tmp = tempfile.mkdtemp(prefix='mosmc-c08b-')
+    try:
+        path = os.path.join(tmp, 'doc.mos.xml')
+        for cls, enc, data in items:
+            verdicts = {}
+            for wf in (None, 'error'):
+                for source in ('bytes', 'file'):
+                    with warnings.catch_warnings(record=True):
+                        if wf:
+                            warnings.simplefilter(wf)
+                        try:
+                            if source == 'bytes':
+                                o = ns.mt.MosFile.from_string(data)
+                            else:
+                                with open(path, 'wb') as f:
+                                    f.write(data)
+                                o = ns.mt.MosFile.from_file(path)
+                            v = type(o).__name__
+                        except ns.exc.MosRoMgrException as e:
+                            v = type(e).__name__
+                        except Exception as e:  # noqa
+                            v = 'BUILTIN:' + type(e).__name__
+                    verdicts[(wf or 'default', source)] = v
+                    res.transitions += 1
+            res.nontrivial += 1
+            res.by_class['encoded:' + enc] += 1
+            vals = set(verdicts.values())
+            res.by_outcome[next(iter(vals)) if len(vals) == 1 else 'INCONSISTENT'] += 1
+            if vals != {cls}:
+                (wf, source), v = next((k, x) for k, x in verdicts.items() if x != cls)
+                explore.add_simple_finding(res, prop, f'encoded:{enc}:{source}:got={v.split(":")[-1]}',
+                                           f'{cls} stored as {enc} with non-ASCII text: from {source} (filter {wf}) gives {v}', cls=cls, encoding=enc)
+    finally:
+        shutil.rmtree(tmp, ignore_errors=True)
+
+
 def vacuity(tot):
     probs = []
     seen = set(tot.by_outcome)
@@ -340,6 +387,7 @@ def vacuity(tot):
 def run(tier):
     docs = documents(tier)
     parts = [{'label': 'documents', 'worker': worker, 'items': docs, 'chunk': 100},
+             {'label': 'documents-in-declared-encodings', 'worker': bytes_worker, 'items': list(encoded_docs()), 'chunk': 40},
              {'label': 'sibling-order-pairs', 'worker': pair_worker, 'items': list(sibling_pairs()), 'chunk': 40}]
     return runner.enum_check(
         'C08', tier, parts, rule=RULE, vacuity=vacuity,
